@@ -167,7 +167,7 @@ fn interesting(cx: &mut Cx) -> u64 {
 
 pub fn run(cfg: &Cfg) -> Result<Outcome, String> {
     let stats = run_sharded(cfg, |cx| {
-        let pairs = cx.budget(1_500_000, 40_000_000);
+        let pairs = if cx.miri { 60 } else { cx.budget(1_500_000, 40_000_000) };
         for i in 0..pairs {
             let a = interesting(cx);
             let b = match i % 6 {
@@ -213,8 +213,8 @@ pub fn run(cfg: &Cfg) -> Result<Outcome, String> {
             }
         }
         // subset iteration
-        let n_masks = cx.budget(320, 6400);
-        let max_bits = if cx.is_thorough() { 20 } else { 14 };
+        let n_masks = if cx.miri { 10 } else { cx.budget(320, 6400) };
+        let max_bits = if cx.miri { 5 } else if cx.is_thorough() { 20 } else { 14 };
         for i in 0..n_masks {
             let bits = (i % (max_bits + 1)) as u32;
             let mut mask = 0u64;
